@@ -18,7 +18,8 @@
 (*   [t |-> "if", a |-> Block, b |-> Block]          b = <<>>: no else     *)
 (*   [t |-> "while", a |-> Block, e |-> Block]       e = <<>>: no else     *)
 (*   [t |-> "for", k |-> 0..2, a |-> Block, e |-> Block]   range(k)        *)
-(*   [t |-> "try", a |-> Block, x |-> 0|1|2|9, h |-> Block, f |-> Block]   *)
+(*   [t |-> "try", a |-> Block, x |-> 0|1|2|9, h |-> Block, o |-> Block,   *)
+(*    f |-> Block]   (o = the else clause of the try statement, tag 5)      *)
 (*        x = 0: no except clause; 1/2: except E1/E2; 9: except Exception; *)
 (*        f = <<>>: no finally                                             *)
 (* Every condition consumes the next decision of the vector (False when    *)
@@ -85,6 +86,8 @@ ExecStmt(s, p, st, dvec) ==
                              st1h == [Visit(st1, hp) EXCEPT !.decs = @ \cup {<<hp, match>>}]
                          IN IF match THEN ExecBlock(s.h, p, 3, [st1h EXCEPT !.flow = "n"], dvec)
                             ELSE st1h
+                    \* the else clause: only when the body ran to its end; the handlers do not guard it
+                    ELSE IF st1.flow = "n" THEN ExecBlock(s.o, p, 5, st1, dvec)
                     ELSE st1
              (* the finally clause runs on every way out; its own exit wins *)
              st3 == IF s.f = <<>> THEN st2
@@ -109,8 +112,8 @@ ValidStmt(s, inLoop) ==
     [] s.t = "if" -> s.a # <<>> /\ ValidBlock(s.a, inLoop) /\ ValidBlock(s.b, inLoop)
     [] s.t \in {"while", "for"} -> s.a # <<>> /\ ValidBlock(s.a, TRUE) /\ ValidBlock(s.e, inLoop)
     [] s.t = "try" -> /\ s.a # <<>> /\ ValidBlock(s.a, inLoop)
-                      /\ (s.x = 0 => (s.h = <<>> /\ s.f # <<>>)) /\ (s.x # 0 => s.h # <<>>)
-                      /\ ValidBlock(s.h, inLoop)
+                      /\ (s.x = 0 => (s.h = <<>> /\ s.f # <<>> /\ s.o = <<>>)) /\ (s.x # 0 => s.h # <<>>)
+                      /\ ValidBlock(s.h, inLoop) /\ ValidBlock(s.o, inLoop)
                       \* break/continue/return inside finally are legal but discouraged: not generated
                       /\ ValidBlock(s.f, FALSE) /\ \A i \in DOMAIN s.f : s.f[i].t \in {"mark"}
     [] OTHER -> TRUE
@@ -121,13 +124,14 @@ Simple == {Mark, [t |-> "ret"], [t |-> "break"], [t |-> "cont"], [t |-> "raise",
 B0 == {<<>>} \cup {<<s>> : s \in Simple} \cup {<<Mark, s>> : s \in Simple}
 ElseB == {<<>>, <<Mark>>}
 HandlerB == {<<Mark>>, <<[t |-> "ret"]>>, <<[t |-> "raise", e |-> 2]>>}
+TryElseB == {<<>>, <<Mark>>, <<[t |-> "raise", e |-> 1]>>}
 Compound(Body) ==
        {[t |-> "if", a |-> a, b |-> b] : a \in Body \ {<<>>}, b \in B0}
   \cup {[t |-> "while", a |-> a, e |-> e] : a \in Body \ {<<>>}, e \in ElseB}
   \cup {[t |-> "for", k |-> k, a |-> a, e |-> e] : k \in 0..2, a \in Body \ {<<>>}, e \in ElseB}
-  \cup {[t |-> "try", a |-> a, x |-> 0, h |-> <<>>, f |-> <<Mark>>] : a \in Body \ {<<>>}}
-  \cup {[t |-> "try", a |-> a, x |-> x, h |-> h, f |-> f] :
-           a \in Body \ {<<>>}, x \in {1, 9}, h \in HandlerB, f \in ElseB}
+  \cup {[t |-> "try", a |-> a, x |-> 0, h |-> <<>>, o |-> <<>>, f |-> <<Mark>>] : a \in Body \ {<<>>}}
+  \cup {[t |-> "try", a |-> a, x |-> x, h |-> h, o |-> o, f |-> f] :
+           a \in Body \ {<<>>}, x \in {1, 9}, h \in HandlerB, o \in TryElseB, f \in ElseB}
 C1 == Compound(B0)
 Progs1 == {p \in {<<c>> : c \in C1} \cup {<<Mark, c, Mark>> : c \in C1} : ValidBlock(p, FALSE)}
 
@@ -135,7 +139,8 @@ Progs1 == {p \in {<<c>> : c \in C1} \cup {<<Mark, c, Mark>> : c \in C1} : ValidB
 (* Coverage exclusions (C08).  A marker (`# pragma: no cover` /            *)
 (* `# pynguin: no cover`) sits on a statement line (its path) or on a       *)
 (* clause line: <<p, 2, 0>> the `else:` of the statement at p, <<p, 3, 0>>  *)
-(* its `except` line, <<p, 4, 0>> its `finally:` line.                      *)
+(* its `except` line, <<p, 4, 0>> its `finally:` line, <<p, 5, 0>> the     *)
+(* `else:` line of a try statement.                                         *)
 (*  - a marked simple statement is excluded;                                *)
 (*  - a marked compound header excludes the header and the branch it heads  *)
 (*    (then-body, loop body, try body);                                     *)
@@ -151,7 +156,7 @@ LinesOf(s, p) ==
   CASE s.t = "if" -> {p} \cup AllOf(s.a, p, 1) \cup AllOf(s.b, p, 2)
     [] s.t \in {"while", "for"} -> {p} \cup AllOf(s.a, p, 1) \cup AllOf(s.e, p, 2)
     [] s.t = "try" -> {p} \cup AllOf(s.a, p, 1) \cup (IF s.x # 0 THEN {p \o <<3, 0>>} ELSE {})
-                      \cup AllOf(s.h, p, 3) \cup AllOf(s.f, p, 4)
+                      \cup AllOf(s.h, p, 3) \cup AllOf(s.o, p, 5) \cup AllOf(s.f, p, 4)
     [] OTHER -> {p}
 
 ExclOf(blk, p, tag, M) == UNION {ExclStmt(blk[i], p \o <<tag, i>>, M) : i \in DOMAIN blk}
@@ -165,6 +170,7 @@ ExclStmt(s, p, M) ==
     [] s.t = "try" ->
          (IF p \in M THEN {p} \cup AllOf(s.a, p, 1) ELSE ExclOf(s.a, p, 1, M))
          \cup (IF (p \o <<3, 0>>) \in M THEN {p \o <<3, 0>>} \cup AllOf(s.h, p, 3) ELSE ExclOf(s.h, p, 3, M))
+         \cup (IF (p \o <<5, 0>>) \in M THEN AllOf(s.o, p, 5) ELSE ExclOf(s.o, p, 5, M))
          \cup (IF (p \o <<4, 0>>) \in M THEN AllOf(s.f, p, 4) ELSE ExclOf(s.f, p, 4, M))
     [] OTHER -> IF p \in M THEN {p} ELSE {}
 
@@ -175,7 +181,7 @@ PredStmt(s, p, M) ==
     [] s.t \in {"while", "for"} ->
          (IF (p \o <<2, 0>>) \in M THEN {} ELSE {p}) \cup PredsOf(s.a, p, 1, M) \cup PredsOf(s.e, p, 2, M)
     [] s.t = "try" -> (IF s.x # 0 THEN {p \o <<3, 0>>} ELSE {}) \cup PredsOf(s.a, p, 1, M)
-                      \cup PredsOf(s.h, p, 3, M) \cup PredsOf(s.f, p, 4, M)
+                      \cup PredsOf(s.h, p, 3, M) \cup PredsOf(s.o, p, 5, M) \cup PredsOf(s.f, p, 4, M)
     [] OTHER -> {}
 
 (* where a marker can be placed *)
@@ -186,7 +192,8 @@ SitesStmt(s, p) ==
     [] s.t \in {"while", "for"} ->
          {p} \cup (IF s.e # <<>> THEN {p \o <<2, 0>>} ELSE {}) \cup SitesOf(s.a, p, 1) \cup SitesOf(s.e, p, 2)
     [] s.t = "try" -> {p} \cup (IF s.x # 0 THEN {p \o <<3, 0>>} ELSE {}) \cup (IF s.f # <<>> THEN {p \o <<4, 0>>} ELSE {})
-                      \cup SitesOf(s.a, p, 1) \cup SitesOf(s.h, p, 3) \cup SitesOf(s.f, p, 4)
+                      \cup (IF s.o # <<>> THEN {p \o <<5, 0>>} ELSE {})
+                      \cup SitesOf(s.a, p, 1) \cup SitesOf(s.h, p, 3) \cup SitesOf(s.o, p, 5) \cup SitesOf(s.f, p, 4)
     [] OTHER -> {p}
 
 EndPath(prog) == <<0, Len(prog) + 1>>
